@@ -32,7 +32,12 @@ def main(argv: list[str]) -> int:
         outcome, events = exec_read(sb, spec)
         n_inv = sum(1 for ev in events if ev[0] == "open" and (ev[1], ev[2]) in sb.inv)
         if outcome[0] == "bytes":
-            results.append({"kind": "bytes", "hex": outcome[1].hex(), "audit_events": n_inv})
+            data = outcome[1]
+            head = data[:4096]
+            if any(data[4096:]):  # never the case for bytes of the sparse sandbox files
+                head = data
+            results.append({"kind": "bytes", "hex": head.hex(), "zeros": len(data) - len(head),
+                            "audit_events": n_inv})
         else:
             results.append({"kind": "raised", "exc": type(outcome[1]).__name__, "audit_events": n_inv})
     try:
